@@ -24,9 +24,14 @@ WHAT IS MODELLED
   * The column: current table, queue of older tables (oldest first, as `Reindex::queue`),
     reindex progress, the value tables seen as a map address -> (tail, value) plus, per size
     tier, the fill mark and the LIFO free list (so that addresses, and with them "same address
-    already present" during reindex, are predicted exactly).  Values occupy one slot: the
-    multipart tier 255 is outside this model (the harness keeps model-compared values below
-    it and covers multipart chains by structural checks only).
+    already present" during reindex, are predicted exactly).  A value occupies its head slot
+    (the address) plus `ext` continuation slots (`ext = 0` in the fixed-size tiers; in the
+    multipart tier 255 `ext + 1` is the number of parts of the chain).  The allocator follows
+    `overwrite_chain` / `clear_chain` slot by slot: the head is popped first, then the
+    continuation slots (free list first, then fresh slots at the fill mark); a replacement in
+    place keeps the first slots of the old chain and frees the surplus, last kept part first;
+    a removal pushes the whole chain, so that the last part ends up on top of the free list.
+    The continuation slots of the live values of a tier are kept in `Tier.chains`.
   * The model state is the LOGICAL state (files + log overlay), i.e. what planning
     (`process_commits`, `process_reindex`) reads and writes.  The only effect that happens at
     enact time and is visible to planning is `DropTable`: it is the separate step `enactDrop`.
@@ -46,7 +51,10 @@ FINDINGS reproduced on the real crate (see Pdb/Props/C09.lean for the Lean witne
 DRIVER PROTOCOL (command `c09`, stateful; one output line per input line)
   c09 init <bits> <exact|sse2> <grow|nogrow>   fresh column with `bits` index bits      -> ok
   c09 set <hexkey32> <valtoken>    plan `Operation::Set`; valtoken = `t<tier>_<anything>`,
-                                   tier = size tier of the stored value (0..254)         -> ok
+                                   tier = size tier of the stored value (0..254), or
+                                   `t255_<len>_<anything>`: a value of `len` bytes in the
+                                   multipart tier (uncompressed plain hash column: the number
+                                   of parts is computed from `len`)                      -> ok
   c09 del <hexkey32>               plan `Operation::Dereference`                         -> ok
   c09 get <hexkey32>               `HashColumn::get`                     -> some <valtoken> | none
   c09 reindex                      one `process_reindex` batch                           -> ok
@@ -241,8 +249,41 @@ structure Tier where
   filled : Nat
   /-- free list, head = `last_removed` -/
   free : List Nat
+  /-- the live values that occupy more than one slot: offset of the head slot and the
+  continuation slots in chain order -/
+  chains : List (Nat × List Nat)
 
-def Tier.init : Tier := ⟨1, []⟩
+def Tier.init : Tier := ⟨1, [], []⟩
+
+/-- continuation slots of the value whose head slot is `h` (`[]`: a one-slot value) -/
+def chainRest : List (Nat × List Nat) → Nat → List Nat
+  | [], _ => []
+  | (h', r) :: l, h => if h' = h then r else chainRest l h
+
+/-- forget the chain of head `h` -/
+def chainDrop : List (Nat × List Nat) → Nat → List (Nat × List Nat)
+  | [], _ => []
+  | (h', r) :: l, h => if h' = h then chainDrop l h else (h', r) :: chainDrop l h
+
+/-- record `r` as the continuation of head `h` (nothing is recorded for a one-slot value) -/
+def chainPut (l : List (Nat × List Nat)) (h : Nat) (r : List Nat) : List (Nat × List Nat) :=
+  if r.isEmpty then chainDrop l h else (h, r) :: chainDrop l h
+
+/-- all continuation slots -/
+def ownedOf : List (Nat × List Nat) → List Nat
+  | [] => []
+  | (_, r) :: l => r ++ ownedOf l
+
+/-- `overwrite_chain` on the chain of head `h`, seen from the allocator: the value now takes `m`
+continuation slots.  The first `m` old continuation slots are kept, missing ones are popped from
+the free list, then taken at the fill mark; surplus old slots are pushed on the free list in
+chain order (`clear_chain`), so the last one ends up on top. -/
+def Tier.resize (t : Tier) (h m : Nat) : Tier :=
+  let rest := chainRest t.chains h
+  ⟨t.filled + (m - rest.length - t.free.length),
+   (rest.drop m).reverse ++ t.free.drop (m - rest.length),
+   chainPut t.chains h (rest.take m ++ (t.free.take (m - rest.length) ++
+     List.range' t.filled (m - rest.length - t.free.length)))⟩
 
 structure Col where
   cfg : Cfg
@@ -267,17 +308,26 @@ def Col.tailAt (s : Col) (a : Nat) : Option Nat := (s.valAt a).map (·.tail)
 /-- search order: current table, then the queue front to back (`get`, `search_all_indexes`) -/
 def Col.tables (s : Col) : List Table := s.current :: s.older
 
-/-- `ValueTable::next_free` -/
+/-- `ValueTable::next_free` (the head slot of a new value) -/
 def Col.alloc (s : Col) (tier : Nat) : Nat × Col :=
   let t := s.tier tier
   match t.free with
-  | o :: rest => (o, { s with tiers := s.tiers.set DEPTH tier (some ⟨t.filled, rest⟩) })
-  | [] => (t.filled, { s with tiers := s.tiers.set DEPTH tier (some ⟨t.filled + 1, []⟩) })
+  | o :: rest => (o, { s with tiers := s.tiers.set DEPTH tier (some ⟨t.filled, rest, t.chains⟩) })
+  | [] => (t.filled, { s with tiers := s.tiers.set DEPTH tier (some ⟨t.filled + 1, [], t.chains⟩) })
 
-/-- `ValueTable::clear_slot` (allocator part) -/
+/-- continuation slots of the value at offset `off` of tier `tier` -/
+def Col.restAt (s : Col) (tier off : Nat) : List Nat := chainRest (s.tier tier).chains off
+
+/-- `ValueTable::write_remove_plan` (allocator part): `clear_slot` for a one-slot value,
+`clear_chain` for a chain - every slot of the chain is pushed, head first. -/
 def Col.release (s : Col) (tier off : Nat) : Col :=
   let t := s.tier tier
-  { s with tiers := s.tiers.set DEPTH tier (some ⟨t.filled, off :: t.free⟩) }
+  let t' : Tier := ⟨t.filled, (off :: chainRest t.chains off).reverse ++ t.free, chainDrop t.chains off⟩
+  { s with tiers := s.tiers.set DEPTH tier (some t') }
+
+/-- the value at offset `h` of tier `tier` now takes `m` continuation slots (`Tier.resize`) -/
+def Col.resize (s : Col) (tier h m : Nat) : Col :=
+  { s with tiers := s.tiers.set DEPTH tier (some ((s.tier tier).resize h m)) }
 
 def Col.setVal (s : Col) (a : Nat) (o : Option Slot) (nLive : Nat) : Col :=
   { s with values := s.values.set DEPTH a o, nLive := nLive }
@@ -341,11 +391,11 @@ elaborator never unfolds `insertLoop .. LOOP_FUEL` while checking definitional e
 
 /-! ## Planned writes -/
 
-/-- `write_plan_new` -/
-def writeNew (s : Col) (k : Key) (tier : Nat) (v : Val) : Res :=
+/-- `write_plan_new`; the value takes `ext` continuation slots besides its head slot -/
+def writeNew (s : Col) (k : Key) (tier ext : Nat) (v : Val) : Res :=
   let r := s.alloc tier
   let a := Address.new r.1 tier
-  let s2 := r.2.setVal a (some ⟨k.tail, v⟩) (r.2.nLive + 1)
+  let s2 := (r.2.setVal a (some ⟨k.tail, v⟩) (r.2.nLive + 1)).resize tier r.1 ext
   insertLoop s2 k.pre a LOOP_FUEL
 
 /-- table number `j` of the search order -/
@@ -358,21 +408,22 @@ def Col.setTableAt (s : Col) (j : Nat) (t : Table) : Col :=
 
 /-- value-table part of a tier move: `write_remove_plan` on the old tier, `write_insert_plan` on
 the new one.  Result: (new address, state). -/
-def moveValue (s : Col) (k : Key) (a tier' : Nat) (v : Val) : Nat × Col :=
+def moveValue (s : Col) (k : Key) (a tier' ext : Nat) (v : Val) : Nat × Col :=
   let s1 := (s.release (Address.size_tier a) (Address.offset a)).setVal a none s.nLive
   let r := s1.alloc tier'
   let a' := Address.new r.1 tier'
-  (a', r.2.setVal a' (some ⟨k.tail, v⟩) r.2.nLive)
+  (a', (r.2.setVal a' (some ⟨k.tail, v⟩) r.2.nLive).resize tier' r.1 ext)
 
-/-- `write_plan_existing` for a key found at (table `j`, `sub`, address `a`). -/
-def writeExisting (s : Col) (k : Key) (op : Option (Nat × Val)) (j sub a : Nat) : Res :=
+/-- `write_plan_existing` for a key found at (table `j`, `sub`, address `a`); a `Set` is
+`some (tier, ext, value)`: size tier and number of continuation slots of the stored value. -/
+def writeExisting (s : Col) (k : Key) (op : Option (Nat × Nat × Val)) (j sub a : Nat) : Res :=
   match op with
-  | some (tier', v) =>
+  | some (tier', ext, v) =>
     if Address.size_tier a = tier' then
-      -- write_replace_plan: same slot
-      .ok (s.setVal a (some ⟨k.tail, v⟩) s.nLive)
+      -- write_replace_plan: same head slot, the chain is cut or extended
+      .ok ((s.setVal a (some ⟨k.tail, v⟩) s.nLive).resize tier' (Address.offset a) ext)
     else
-      let m := moveValue s k a tier' v
+      let m := moveValue s k a tier' ext v
       -- `tables.index.write_insert_plan(key, value_address, sub_index, log)`; with
       -- `growOnMove = false` a `NeedReindex` outcome is returned without inserting anything
       insertCont m.2 (m.2.current.insert k.pre m.1 (if j = 0 then some sub else none))
@@ -384,13 +435,13 @@ def writeExisting (s : Col) (k : Key) (op : Option (Nat × Val)) (j sub a : Nat)
     | some t => .ok (s1.setTableAt j t)
     | none => .ok s1
 
-/-- `HashColumn::write_plan`; `op = some (tier, value)` is `Set`, `none` is `Dereference`. -/
-def write (s : Col) (k : Key) (op : Option (Nat × Val)) : Res :=
+/-- `HashColumn::write_plan`; `op = some (tier, ext, value)` is `Set`, `none` is `Dereference`. -/
+def write (s : Col) (k : Key) (op : Option (Nat × Nat × Val)) : Res :=
   match searchAll s k with
   | some (j, sub, a) => writeExisting s k op j sub a
   | none =>
     match op with
-    | some (tier, v) => writeNew s k tier v
+    | some (tier, ext, v) => writeNew s k tier ext v
     | none => .ok s
 
 /-! ## Reindex -/
@@ -518,13 +569,30 @@ def parseKey (s : String) : Option Key :=
     | some p, some t => some ⟨p, t⟩
     | _, _ => none
 
-/-- `t<tier>_...` -> tier -/
-def parseTier (tok : String) : Option Nat :=
+/-- number of parts `overwrite_chain` cuts `rem` bytes (key tail + value) into: while the
+remainder exceeds `fs` = entry size - SIZE_SIZE a part of `cap` = `fs - INDEX_SIZE` bytes -/
+def partsLoop (fs cap : Nat) : Nat → Nat → Nat
+  | 0, _ => 1
+  | f + 1, rem => if fs < rem then 1 + partsLoop fs cap f (rem - cap) else 1
+
+/-- continuation slots of an uncompressed value of `len` bytes in the multipart table of a plain
+hash column (no reference counter) -/
+def extOfLen (len : Nat) : Nat :=
+  partsLoop (MULTIPART_ENTRY_SIZE - SIZE_SIZE) (MULTIPART_ENTRY_SIZE - SIZE_SIZE - INDEX_SIZE)
+    (len + PARTIAL_SIZE) (len + PARTIAL_SIZE) - 1
+
+/-- `t<tier>_...` -> (tier, continuation slots); `t255_<len>_...` for the multipart tier -/
+def parseTier (tok : String) : Option (Nat × Nat) :=
   match tok.toList with
   | 't' :: rest =>
     let ds := rest.takeWhile (· ≠ '_')
     match (String.ofList ds).toNat? with
-    | some n => if n < 255 then some n else none
+    | some n =>
+      if n < 255 then some (n, 0)
+      else if n = 255 then
+        let ls := ((rest.dropWhile (· ≠ '_')).drop 1).takeWhile (· ≠ '_')
+        (String.ofList ls).toNat?.map (fun len => (255, extOfLen len))
+      else none
     | none => none
   | _ => none
 
@@ -580,8 +648,8 @@ def step (d : DState) (ws : List String) : DState × String :=
     | _, _, _ => (d, "bad-op")
   | ["set", k, v] =>
     match parseKey k, parseTier v with
-    | some key, some tier =>
-      if d.failed.isSome then (d, "ok") else resLine d (write d.col key (some (tier, v)))
+    | some key, some te =>
+      if d.failed.isSome then (d, "ok") else resLine d (write d.col key (some (te.1, te.2, v)))
     | _, _ => (d, "bad-op")
   | ["del", k] =>
     match parseKey k with
